@@ -134,11 +134,31 @@ package tree
 // Enumerations used by callers in other packages (thin contracts)
 // ---------------------------------------------------------------------------
 
+//@ func (*tree.Tree).tipsRecur
+//@   requires t != nil && tips != nil && INV12() && (cur != nil || t.root != nil) && (cur == nil || allocated(cur)) && (t.root == nil || allocated(t.root))
+//@   requires [the_list_is_not_a_node_s_own_neighbour_array] forall n *Node :: {n.neigh} allocated(n) ==> arr(n.neigh) != arr(*tips)
+//@   allocates []*Node
+//@   assigns cell(tips), elems(*tips)
+//@   ensures [the_listed_prefix_is_kept] len(*tips) >= old(len(*tips)) && (forall k int :: {(*tips)[k]} {old((*tips)[k])} 0 <= k && k < old(len(*tips)) ==> (*tips)[k] == old((*tips)[k]))
+//@   ensures [a_tip_reached_is_listed_next] len((cur == nil ? t.root : cur).neigh) == 1 ==> len(*tips) > old(len(*tips)) && (*tips)[old(len(*tips))] == (cur == nil ? t.root : cur)
+//@   ensures [the_list_stays_in_storage_of_its_own] arr(*tips) == old(arr(*tips)) || fresh_arr(*tips)
+//@   ensures [only_tips_are_listed] forall k int :: {(*tips)[k]} old(len(*tips)) <= k && k < len(*tips) ==> (*tips)[k] != nil && allocated((*tips)[k]) && len((*tips)[k].neigh) == 1
+//@   call (*tree.Tree).tipsRecur [goes_to_every_neighbour_but_the_one_it_came_from] a1 == tips && a2 == n && n != prev && a3 == (cur == nil ? t.root : cur)
+//@   loop 1
+//@     assigns cell(tips), elems("*Node")
+//@     invariant [only_the_list_s_own_storage_is_written] oldarrays_same("*Node", *tips)
+//@     invariant [list_private] (forall n *Node :: {n.neigh} allocated(n) ==> arr(n.neigh) != arr(*tips)) && (arr(*tips) == old(arr(*tips)) || fresh_arr(*tips))
+//@     invariant [prefix_kept] len(*tips) >= old(len(*tips)) && (forall k int :: {(*tips)[k]} 0 <= k && k < old(len(*tips)) ==> (*tips)[k] == old((*tips)[k])) && (len(cur.neigh) == 1 ==> len(*tips) > old(len(*tips)) && (*tips)[old(len(*tips))] == cur)
+//@     invariant [only_tips_are_listed] forall k int :: {(*tips)[k]} old(len(*tips)) <= k && k < len(*tips) ==> (*tips)[k] != nil && allocated((*tips)[k]) && len((*tips)[k].neigh) == 1
+//@     invariant [still_well_formed] INV12() && t != nil && tips != nil && cur != nil && allocated(cur)
+
 //@ func (*tree.Tree).Tips
 //@   requires t != nil
+//@   entry [well_formed_tree] t.root != nil && allocated(t.root) && INV12()
 //@   allocates []*Node
 //@   assigns nothing
 //@   ensures [elements_non_nil] forall k int :: {result[k]} 0 <= k && k < len(result) ==> result[k] != nil && allocated(result[k])
+//@   ensures [only_tips] forall k int :: {result[k]} 0 <= k && k < len(result) ==> len(result[k].neigh) == 1
 //@   ensures [elements_distinct] forall k int, j int :: {result[k], result[j]} 0 <= k && k < j && j < len(result) ==> result[k] != result[j]
 //@   ensures [fresh_storage] fresh_arr(result)
 
@@ -157,10 +177,19 @@ package tree
 
 //@ func (*tree.Tree).Edges
 //@   requires t != nil
+//@   entry [well_formed_tree] t.root != nil && allocated(t.root) && INV12() && LIVEBR()
 //@   allocates []*Edge
 //@   assigns nothing
 //@   ensures [elements_are_branches_with_both_ends] forall k int :: 0 <= k && k < len(result) ==> result[k] != nil && allocated(result[k]) && result[k].right != nil && result[k].left != nil && allocated(result[k].left) && allocated(result[k].right)
 //@   ensures [fresh_storage] fresh_arr(result)
+//@   ensures [every_root_branch_is_listed] forall i int :: {t.root.br[i]} 0 <= i && i < len(t.root.br) ==> (exists k int :: {result[k]} 0 <= k && k < len(result) && result[k] == t.root.br[i])
+//@   call (*tree.Tree).edgesRecur [the_walk_descends_through_every_root_branch] a1 == e
+//@   loop 1
+//@     assigns cell(edges), elems("*Edge")
+//@     invariant [live_branches_so_far] forall k int :: {edges[k]} 0 <= k && k < len(edges) ==> edges[k] != nil && allocated(edges[k]) && edges[k].right != nil && edges[k].left != nil && allocated(edges[k].left) && allocated(edges[k].right)
+//@     invariant [root_branches_met_so_far_are_listed] forall i int :: {t.root.br[i]} 0 <= i && i <= rangeindex ==> (exists k int :: {edges[k]} 0 <= k && k < len(edges) && edges[k] == t.root.br[i])
+//@     invariant [list_in_storage_of_its_own] fresh_arr(edges) && oldarrays_same("*Edge") && (forall n *Node :: {n.br} allocated(n) ==> arr(n.br) != arr(edges))
+//@     invariant [still_well_formed] INV12() && LIVEBR() && t != nil && t.root != nil && allocated(t.root)
 
 // ReinitIndexes / ReinitInternalIndexes (property C04): name index first, then fresh bitsets, then their content, then
 // the hash sums of both sides, then depths - each step only after the previous one succeeded; only index fields are
@@ -1148,11 +1177,23 @@ package tree
 //@   ensures [a_tree_or_an_error] result1 == nil ==> result0 != nil && fresh(result0)
 
 //@ func (*tree.Tree).edgesRecur
-//@   flag noframe
-//@   requires t != nil && edge != nil && edges != nil
+//@   requires t != nil && edge != nil && edge.right != nil && edges != nil && INV12() && LIVEBR() && allocated(edge.right)
+//@   requires [the_list_is_not_a_node_s_own_branch_array] forall n *Node :: {n.br} allocated(n) ==> arr(n.br) != arr(*edges)
+//@   allocates []*Edge
+//@   assigns cell(edges), elems(*edges)
 //@   ensures [the_listed_prefix_is_kept] len(*edges) >= old(len(*edges)) && (forall k int :: {(*edges)[k]} {old((*edges)[k])} 0 <= k && k < old(len(*edges)) ==> (*edges)[k] == old((*edges)[k]))
+//@   ensures [the_list_stays_in_storage_of_its_own] arr(*edges) == old(arr(*edges)) || fresh_arr(*edges)
+//@   ensures [every_appended_branch_is_a_live_branch] forall k int :: {(*edges)[k]} old(len(*edges)) <= k && k < len(*edges) ==> (*edges)[k] != nil && allocated((*edges)[k]) && (*edges)[k].left != nil && (*edges)[k].right != nil && allocated((*edges)[k].left) && allocated((*edges)[k].right)
+//@   ensures [every_branch_leaving_an_inner_lower_end_is_listed] len(edge.right.neigh) > 1 ==> (forall i int :: {edge.right.br[i]} 0 <= i && i < len(edge.right.br) && edge.right.br[i].left == edge.right ==> (exists k int :: {(*edges)[k]} old(len(*edges)) <= k && k < len(*edges) && (*edges)[k] == edge.right.br[i]))
+//@   call (*tree.Tree).edgesRecur [descends_through_every_branch_leaving_the_lower_end] a1 == child && child.left == edge.right && a2 == edges
 //@   loop 1
+//@     assigns cell(edges), elems("*Edge")
+//@     invariant [only_the_list_s_own_storage_is_written] oldarrays_same("*Edge", *edges)
+//@     invariant [list_private] (forall n *Node :: {n.br} allocated(n) ==> arr(n.br) != arr(*edges)) && (arr(*edges) == old(arr(*edges)) || fresh_arr(*edges))
 //@     invariant [the_listed_prefix_is_kept] len(*edges) >= old(len(*edges)) && (forall k int :: {(*edges)[k]} 0 <= k && k < old(len(*edges)) ==> (*edges)[k] == old((*edges)[k]))
+//@     invariant [every_appended_branch_is_a_live_branch] forall k int :: {(*edges)[k]} old(len(*edges)) <= k && k < len(*edges) ==> (*edges)[k] != nil && allocated((*edges)[k]) && (*edges)[k].left != nil && (*edges)[k].right != nil && allocated((*edges)[k].left) && allocated((*edges)[k].right)
+//@     invariant [branches_met_so_far_are_listed] forall i int :: {edge.right.br[i]} 0 <= i && i <= rangeindex && edge.right.br[i].left == edge.right ==> (exists k int :: {(*edges)[k]} old(len(*edges)) <= k && k < len(*edges) && (*edges)[k] == edge.right.br[i])
+//@     invariant [still_well_formed] INV12() && LIVEBR() && edge != nil && edge.right != nil && edges != nil
 
 // ---------------------------------------------------------------------------
 // UnRoot (property C05): the bifurcating root is suppressed, its two branches
@@ -1223,9 +1264,11 @@ package tree
 
 //@ func (*tree.Tree).Nodes
 //@   requires t != nil
+//@   entry [well_formed_tree] t.root != nil && allocated(t.root) && INV12()
 //@   allocates []*Node
 //@   assigns nothing
 //@   ensures [fresh_storage] fresh_arr(result)
+//@   ensures [the_root_comes_first_and_every_listed_node_is_live] len(result) >= 1 && result[0] == t.root && (forall k int :: {result[k]} 0 <= k && k < len(result) ==> result[k] != nil && allocated(result[k]))
 
 //@ func (*tree.Tree).Reroot
 //@   flag noframe
@@ -1283,10 +1326,24 @@ package tree
 //@   call (*tree.Edge).SetSupport [each_half_carries_the_support_of_the_separating_branch] a1 == rootedge.support
 //@   call (*tree.Tree).reroot_nocheck [both_halves_were_given_the_support_and_the_length_when_there_is_one] !removeoutgroup ==> ghost(ncalls_SetSupport) == old(ghost(ncalls_SetSupport)) + 2 && (rootedge.length != -1.0 ==> ghost(ncalls_SetLength) == old(ghost(ncalls_SetLength)) + 2)
 
+// Nodes / nodesRecur, Tips / tipsRecur (properties C03, C04): the node reached is listed first, then the walk goes to every
+// neighbour other than the one it came from; only the list's own storage is written
 //@ func (*tree.Tree).nodesRecur
-//@   requires t != nil && nodes != nil
+//@   requires t != nil && nodes != nil && INV12() && (cur != nil || t.root != nil) && (cur == nil || allocated(cur)) && (t.root == nil || allocated(t.root))
+//@   requires [the_list_is_not_a_node_s_own_neighbour_array] forall n *Node :: {n.neigh} allocated(n) ==> arr(n.neigh) != arr(*nodes)
 //@   allocates []*Node
-//@   assigns cell(nodes), elems("*Node")
+//@   assigns cell(nodes), elems(*nodes)
+//@   ensures [the_listed_prefix_is_kept_and_the_node_reached_comes_next] len(*nodes) > old(len(*nodes)) && (forall k int :: {(*nodes)[k]} {old((*nodes)[k])} 0 <= k && k < old(len(*nodes)) ==> (*nodes)[k] == old((*nodes)[k])) && (*nodes)[old(len(*nodes))] == (cur == nil ? t.root : cur)
+//@   ensures [the_list_stays_in_storage_of_its_own] arr(*nodes) == old(arr(*nodes)) || fresh_arr(*nodes)
+//@   ensures [every_listed_node_is_live] forall k int :: {(*nodes)[k]} old(len(*nodes)) <= k && k < len(*nodes) ==> (*nodes)[k] != nil && allocated((*nodes)[k])
+//@   call (*tree.Tree).nodesRecur [goes_to_every_neighbour_but_the_one_it_came_from] a1 == nodes && a2 == n && n != prev && a3 == (cur == nil ? t.root : cur)
+//@   loop 1
+//@     assigns cell(nodes), elems("*Node")
+//@     invariant [only_the_list_s_own_storage_is_written] oldarrays_same("*Node", *nodes)
+//@     invariant [list_private] (forall n *Node :: {n.neigh} allocated(n) ==> arr(n.neigh) != arr(*nodes)) && (arr(*nodes) == old(arr(*nodes)) || fresh_arr(*nodes))
+//@     invariant [prefix_kept] len(*nodes) > old(len(*nodes)) && (forall k int :: {(*nodes)[k]} 0 <= k && k < old(len(*nodes)) ==> (*nodes)[k] == old((*nodes)[k])) && (*nodes)[old(len(*nodes))] == cur
+//@     invariant [every_listed_node_is_live] forall k int :: {(*nodes)[k]} old(len(*nodes)) <= k && k < len(*nodes) ==> (*nodes)[k] != nil && allocated((*nodes)[k])
+//@     invariant [still_well_formed] INV12() && t != nil && nodes != nil && cur != nil && allocated(cur)
 
 // MaxLengthPath (property C05): a branch without length is an error; the length returned is never negative and is 0
 // exactly when no path is returned; a longer candidate replaces the current one only when strictly longer
